@@ -2,17 +2,29 @@
 from . import common as C, chan
 
 MODULE = "AcqVerif.Props.C01"
-DRIVERS = ["acq_chan"]
+DRIVERS = ["acq_chan", "acq_conc", "AcqVerif.Props.ChanThreads"]
 THEOREMS = ["AcqVerif.C01.%s" % t for t in (
     "read_map_spec", "join_spec", "unmap_advances", "idx_unchanged_by_others", "consumed_is_stream",
     "bounds_le_total", "status_stays_ok")] + [
     "AcqVerif.Channel.Inv.step", "AcqVerif.Channel.Inv.run", "AcqVerif.Channel.region_bytes"]
 
 def run(ctx):
-    chan.prove_with_lock_discipline(ctx, MODULE, THEOREMS, DRIVERS)
+    chan.prove_with_lock_discipline(ctx, MODULE, THEOREMS, DRIVERS, threads=True)
     ctx.assumptions += chan.ASSUMPTIONS
     chan.explore(ctx, chan.C01_ORACLES)
+    # the calls are atomic except where channel_write_map sleeps: what the writer does after a sleep, while readers overtake each
+    # other, is decided by the interleaving model (AcqVerif.ChanThreads) and tied to channel.c on the deterministic scheduler
+    from . import c03
+    keep = dict(ctx.cov)
+    thorough = ctx.tier == "thorough"
+    c03.conc_part(ctx, ("write-overlaps-unconsumed",), 120 if thorough else 24, 600 if thorough else 150)
+    keep["concurrent_part"] = ctx.cov.get("concurrent_part")
+    ctx.cov.update(keep)
 
 
 def replay(ctx, path):
+    import json
+    if "scenario" in json.load(open(path)).get("replay", {}):
+        from . import c03
+        return c03.replay(ctx, path)
     return chan.replay(ctx, path, chan.C01_ORACLES)
